@@ -120,6 +120,10 @@ class SearchCase:
         self.cmds.append('add %d %s %s' % (id_, md.hex() or '-', ' '.join(str(bits(x)) for x in v)))
         self.docs[id_] = (list(v), md)
 
+    def badadd(self, id_, extra=1):
+        # rejected (wrong vector length): no effect on the documents
+        self.cmds.append('badadd %d %d' % (id_, extra))
+
     def rm(self, id_):
         self.cmds.append('rm %d' % id_)
         self.docs.pop(id_, None)
@@ -129,8 +133,9 @@ class SearchCase:
         if id_ in self.docs:
             self.docs[id_] = (self.docs[id_][0], md)
 
-    def reopen(self):
-        self.cmds.append('reopen')
+    def reopen(self, other=None):
+        # other = (metric, dim, quantization) passed to NewCollection although the file has its own
+        self.cmds.append('reopen' if other is None else 'reopen %d %d %d' % other)
 
     def search(self, K, R, exact, fk, fa, fb, qv, off=0, lim=0):
         self.cmds.append('search %d %d %d %d %d %d %d %d %s' % (K, bits(R), 1 if exact else 0, fk, fa, fb, off, lim, ' '.join(str(bits(x)) for x in qv)))
